@@ -365,7 +365,35 @@ pub fn run(tier: Tier) -> i32 {
             }
         }
     }
-    let n_mut = cases.len() - n_single - n_probe;
+    // 3b. every byte position of every corpus program: deleted, and with every text of a
+    //     hostile-character alphabet written over it / inserted before it (distance 1, exhaustive)
+    let hostile: [&str; 30] = ["\"", "'", "\\", "(", ")", ",", ":", ";", ".", "#", "@", "/", "*", "-", "+", "0", "x", "$", "\t", "\n", "\r", "\0", "\u{e9}", "\u{2028}", "=", "<", "%", "!", "~", "r"];
+    let mut n_bytemut = 0usize;
+    for (pname, src) in corpus::programs() {
+        let stride = 1usize;
+        let idxs: Vec<usize> = src.char_indices().map(|(i, _)| i).collect();
+        for (k, &i) in idxs.iter().enumerate().step_by(stride) {
+            let end = idxs.get(k + 1).copied().unwrap_or(src.len());
+            let head = String::new();
+            let mut push_case = |text: String, vk: &str| {
+                cases.push(Case { kind: b'S', text });
+                meta.push(Meta { origin: "corpus-byte-mutation", head: head.clone(), nops: 0, ctx: "none", probe: format!("{}@{}:{}", pname, i, vk) });
+                n_bytemut += 1;
+            };
+            push_case(format!("{}{}", &src[..i], &src[end..]), "delete");
+            for h in hostile.iter() {
+                push_case(format!("{}{}{}", &src[..i], h, &src[end..]), "overwrite");
+                push_case(format!("{}{}{}", &src[..i], h, &src[i..]), "insert");
+            }
+        }
+        // truncation at every position (an input that simply ends anywhere)
+        for &i in idxs.iter() {
+            cases.push(Case { kind: b'S', text: src[..i].to_string() });
+            meta.push(Meta { origin: "corpus-byte-mutation", head: String::new(), nops: 0, ctx: "none", probe: format!("{}@{}:truncate", pname, i) });
+            n_bytemut += 1;
+        }
+    }
+    let n_mut = cases.len() - n_single - n_probe - n_bytemut;
 
     // run everything in the sandbox
     let cache: Mutex<BTreeMap<String, Vec<String>>> = Mutex::new(BTreeMap::new());
@@ -387,6 +415,7 @@ pub fn run(tier: Tier) -> i32 {
         let shape = match m.origin {
             "size-probe" => format!("probe={}", m.probe.split("/n=").next().unwrap_or("")),
             "corpus-token-mutation" => format!("origin=corpus-token-mutation/head={}", m.head),
+            "corpus-byte-mutation" => format!("origin=corpus-byte-mutation/how={}", m.probe.rsplit(':').next().unwrap_or("")),
             _ => format!("ctx={}/head={}", m.ctx, m.head),
         };
         let key = if site.is_empty() { format!("C16/{}/{}", kind, shape) } else { format!("C16/{}/{}/{}", kind, site, shape) };
@@ -424,7 +453,8 @@ pub fn run(tier: Tier) -> i32 {
     rep.sample(|| json!({"source": cases[n_single / 3].text, "origin": meta[n_single / 3].origin, "context": meta[n_single / 3].ctx}));
     rep.sample(|| json!({"source": cases[n_single / 2 + 7].text, "origin": meta[n_single / 2 + 7].origin, "context": meta[n_single / 2 + 7].ctx}));
     rep.sample(|| json!({"probe": meta[n_single + 3].probe, "source_head": cases[n_single + 3].text.chars().take(80).collect::<String>()}));
-    rep.sample(|| json!({"corpus_token_mutation": meta[cases.len() - 5].probe, "source": cases[cases.len() - 5].text}));
+    rep.sample(|| json!({"corpus_byte_mutation": meta[cases.len() - 5].probe, "source": cases[cases.len() - 5].text}));
+    rep.sample(|| json!({"corpus_token_mutation": meta[n_single + n_probe + 5].probe, "source": cases[n_single + n_probe + 5].text}));
     rep.assume("the quantifier's 'random multi-line programs and byte mutations up to 64 KiB' is sampling and is not claimed; it is replaced by the systematic token mutations and size probes");
     rep.assume("limits: 5 s per case (re-run alone with 20 s before a hang is reported), 1 GiB address space, 8 MiB stack (what a CLI user gets)");
     rep.assume("ok/err counts come from workers that finished their chunk; cases of a chunk whose worker died are still all executed (the worker is restarted after the failing case)");
@@ -450,6 +480,7 @@ pub fn run(tier: Tier) -> i32 {
         "single_line_programs": n_single,
         "size_probes": n_probe,
         "corpus_token_mutations": n_mut,
+        "corpus_byte_mutations": n_bytemut,
         "worker_outcomes": {"ok": counts.ok, "err": counts.err, "hard_failures": counts.hard, "worker_restarts": counts.worker_restarts, "timeouts_rechecked": timeouts.lock().unwrap().len(), "confirmed_hangs": confirmed_hangs},
         "hard_failure_kinds": *hard_seen.lock().unwrap(),
         "caps_hit": [],
